@@ -48,6 +48,12 @@ Theorem C02_preimage_injective_post07 : forall b1 b2, block_wf b1 -> block_wf b2
 Proof. exact preimage_injective_post07. Qed.
 Print Assumptions C02_preimage_injective_post07.
 
+(* pre-0.7 format (early mainnet / goerli blocks; selected by the network's First07Block, not by the version) *)
+Theorem C02_preimage_injective_pre07 : forall ch b1 b2, block_wf b1 -> block_wf b2 -> sig_rule b1 = sig_rule b2 ->
+  block_hash_pre07 ch b1 = block_hash_pre07 ch b2 -> committed_pre07 b1 = committed_pre07 b2.
+Proof. exact preimage_injective_pre07. Qed.
+Print Assumptions C02_preimage_injective_pre07.
+
 (* whatever the protocol versions of the two blocks (the three formats never coincide) *)
 Theorem C02_preimage_injective : forall b1 b2 h, block_wf b1 -> block_wf b2 -> same_sig_rule b1 b2 ->
   block_hash b1 = Some h -> block_hash b2 = Some h -> committed b1 = committed b2.
